@@ -54,6 +54,24 @@ except Exception:                       # pragma: no cover
     pass
 
 
+# Small helpers of the reference tree that are expanded into their callers as well: "inline method" is as common a
+# refactoring as "extract method", and a rule must give the same verdict whether such a helper exists or was folded
+# into its caller.  Rules are written against the expanded form (they never name these functions).
+ALWAYS_EXPAND = frozenset((
+    "gunicorn.arbiter.Arbiter.spawn_workers",
+    "gunicorn.arbiter.Arbiter.kill_workers",
+    "gunicorn.workers.gthread.TConn.set_timeout",
+    "gunicorn.workers.gthread.ThreadWorker._wrap_future",
+    "gunicorn.workers.gthread.ThreadWorker.is_parent_alive",
+    "gunicorn.workers.sync.SyncWorker.is_parent_alive",
+    "gunicorn.http.wsgi.Response.process_headers",
+    "gunicorn.http.wsgi.Response.can_sendfile",
+    "gunicorn.http.wsgi.proxy_environ",
+    "gunicorn.http.body.ChunkedReader.get_data",
+    "gunicorn.http.message.Request.get_data",
+    "gunicorn.util._called_with_wrong_args",
+))
+
 _baseline = None
 
 
@@ -276,13 +294,24 @@ def _resolve_helper(cx, call):
         q = repo.call_target(fi.module, fi, call)
     except Exception:
         return None
+    other_recv = None
+    if (not q or q not in cx.helpers) and isinstance(call.func, ast.Attribute) and isinstance(call.func.value, ast.Name):
+        # `conn.set_timeout()`: a method name that exactly one function of the package bears, called on a plain local
+        cands = [h_ for h_ in cx.helpers.values() if h_.name == call.func.attr and h_.cls is not None]
+        every = [f_ for f_ in repo._funcs.values() if f_.name == call.func.attr]
+        if len(cands) == 1 and len(every) == 1 and not _is_static(cands[0]) and call.func.value.id in fi.locals | set(fi.params) \
+                and not (fi.params and call.func.value.id == fi.params[0] and fi.cls is not None):
+            q = cands[0].qualname
+            other_recv = call.func.value
     if not q or q not in cx.helpers:
         return None
     h = cx.helpers[q]
     if h is fi or h.node is fi.node:
         return None
     recv = None
-    if h.cls is not None:
+    if other_recv is not None:
+        recv = ast.Name(id=other_recv.id, ctx=ast.Load())
+    elif h.cls is not None:
         f = call.func
         if not isinstance(f, ast.Attribute):
             return None
@@ -324,6 +353,19 @@ def _resolve_helper(cx, call):
                     return None                          # a caller local would capture the callee's global
     if any(isinstance(a, ast.Starred) for a in call.args) or any(k.arg is None for k in call.keywords):
         return None
+    if h.cls is not fi.cls:
+        # zero-argument super() and name mangling are bound to the lexically enclosing class
+        for n in _own(h.node):
+            if isinstance(n, ast.Call) and isinstance(n.func, ast.Name) and n.func.id == "super":
+                return None
+            if isinstance(n, ast.Attribute) and n.attr.startswith("__") and not n.attr.endswith("__"):
+                return None
+            if isinstance(n, ast.Name) and n.id == "__class__":
+                return None
+    for d in list(h.node.args.defaults) + [d for d in h.node.args.kw_defaults if d is not None]:
+        if not isinstance(d, (ast.Constant, ast.Name, ast.Attribute)) and not \
+                (isinstance(d, ast.UnaryOp) and isinstance(d.operand, ast.Constant)):
+            return None                                  # a default is evaluated once, at definition time
     return h, recv
 
 
@@ -365,8 +407,15 @@ def _stores(node):
     return out
 
 
-def _simple_arg(a):
-    return isinstance(a, (ast.Name, ast.Constant))
+def _simple_arg(a, cx=None):
+    """a name, a literal, or a constant of an imported module (`signal.SIGKILL`): evaluating it again has no effect
+    and gives the same value"""
+    if isinstance(a, (ast.Name, ast.Constant)):
+        return True
+    if cx is not None and isinstance(a, ast.Attribute) and isinstance(a.value, ast.Name):
+        root = a.value.id
+        return root in cx.fi.module.imports and root not in cx.fi.locals and a.attr.isupper()
+    return False
 
 
 def ret_const(st):
@@ -492,7 +541,7 @@ def _expand(cx, st, call, parent, field, idx, h, recv):
         cx.free = set(T for T in tnames if T not in argnames and T not in in_try)
     for nm in order:
         arg = actual[nm]
-        if nm not in stored and _simple_arg(arg):
+        if nm not in stored and _simple_arg(arg, cx):
             if not (isinstance(arg, ast.Name) and arg.id == nm):
                 subst[nm] = arg
             continue
@@ -704,7 +753,7 @@ def normalise(repo):
     base = baseline()
     helpers = {}
     for q, fi in list(repo._funcs.items()):
-        if q not in base and eligible(fi):
+        if (q not in base or q in ALWAYS_EXPAND) and eligible(fi):
             helpers[q] = fi
     if not helpers:
         return {}
